@@ -63,8 +63,9 @@ def ipow_product(g1,g2):
         L1, L2 = 1, 1
     else:
         L1, L2 = g1.shape[0], g2.shape[0]
-    g1x, g1z = g1[...,::2].repeat(1, L2).view(L1*L2, -1), g1[...,1::2].repeat(1, L2).view(L1*L2, -1)
-    g2x, g2z = g2[...,::2].repeat(L1, 1).view(L1*L2, -1), g2[...,1::2].repeat(L1, 1).view(L1*L2, -1)
+    N = g1.shape[-1]//2 # explicit width: view(..., -1) is ambiguous for an empty polynomial
+    g1x, g1z = g1[...,::2].repeat(1, L2).view(L1*L2, N), g1[...,1::2].repeat(1, L2).view(L1*L2, N)
+    g2x, g2z = g2[...,::2].repeat(L1, 1).view(L1*L2, N), g2[...,1::2].repeat(L1, 1).view(L1*L2, N)
     gx = g1x + g2x
     gz = g1z + g2z
     return torch.sum(g1z * g2x - g1x * g2z + 2*(torch.div(gx, 2, rounding_mode='floor') * gz + gx * torch.div(gz, 2, rounding_mode='floor')), axis=-1) % 4
